@@ -11,6 +11,12 @@ CHECKS = {
             "Runs the real build_state_storage_patch_plan/apply_state_storage_patch_plan on every ordered pair of layouts up to a node bound and on edit-script pairs, and checks every clause of the property on the returned plan and on uniquely tagged migrated storage. Exhaustive within the bound, sampled beyond it; nothing is modelled.",
             "Trusts the harness' own prefix-sum layout walk and tree-inclusion checker; u64 sizes stand in for StateType.", "DESIGN.md §3 C08"),
 }
+CHECKS["C04"] = (
+    "outcome + span oracle over the real front end and both compile entry points on exhaustively enumerated lexeme sequences, nesting ladders, corpus prefixes/suffixes, token mutations and Unicode splices; every text runs in a sandboxed child on a 2 MiB stack",
+    "Calls parser::tokenize/preparse/parse_cst/parse_to_expr, mirgen::typecheck_with_module_info, the language server's analyze_source and Context::emit_bytecode/emit_wasm (contexts built by ExecContext) on every generated text and observes the outcome: panic (caught, signature = file + message head), stack overflow (SIGSEGV handler at the guard page of the 2 MiB thread, class decided by a rerun with 256 MiB), runaway allocation (death at the 1.5 GiB address-space limit and again, with a larger peak, at twice the limit), hang (30 s in one phase, confirmed alone with 120 s) and the byte range of every diagnostic label against the text. Exhaustive for all lexeme sequences up to the stated lengths and all ladders up to 64 levels; sampled beyond (mutations, Unicode, cut points of expensive files).",
+    "Trusts the harness' child supervision (status file written before each phase, wait4 resource usage) for attributing crashes; 'has syntax or type errors' is decided by the front end's own diagnostics; plugin set = scheduler (+ audio driver on the VM context), not MIDI/sampler/GUI.",
+    "DESIGN.md §3 C04",
+)
 PENDING = {}
 
 def main():
